@@ -15,7 +15,8 @@ Ltac Zify.zify_post_hook ::= Z.div_mod_to_equations.
 
 Inductive item : Type :=
 | IName (d : decl)
-| IBlk (bk : bkind) (k seg : N) (fa : list N) (body : list item).
+| IBlk (bk : bkind) (k seg : N) (fa : list N) (body : list item)
+| ILeaf (lk : lkind) (seg : N) (fa : list N) (ta : list decl).
 
 (** Device and Method blocks (the fragments F1 / F2) *)
 Definition IDev (k seg : N) (body : list item) : item := IBlk BDev k seg [] body.
@@ -24,6 +25,11 @@ Definition IMeth (k seg fl : N) (body : list item) : item := IBlk BMeth k seg [f
 (** the fixed data arguments of a block with their widths *)
 Definition bfx (bk : bkind) (fa : list N) : fxs := combine (bk_ws bk) fa.
 Definition blo (bk : bkind) : N := lenN (enc_op (bk_op bk)).
+Definition lfx (lk : lkind) (fa : list N) : fxs := combine (lk_ws lk) fa.
+Definition llo (lk : lkind) : N := lenN (enc_op (lk_op lk)).
+(** the constant TermArg arguments of a leaf object (only opcode and value of the [decl] are used) *)
+Definition enc_ta (ta : list decl) : list N := flat_map enc_const ta.
+Definition cst_okb (d : decl) : bool := is_constb (d_op d) && (d_v d <? 2 ^ (N.of_nat (const_bytes (d_op d)) * 8)).
 
 Fixpoint enc_item (it : item) : list N :=
   match it with
@@ -31,18 +37,21 @@ Fixpoint enc_item (it : item) : list N :=
   | IBlk bk k seg fa body =>
       enc_op (bk_op bk) ++ enc_pkglen k (k + lenN (seg_bytes seg ++ enc_fx (bfx bk fa) ++ flat_map enc_item body)) ++
       seg_bytes seg ++ enc_fx (bfx bk fa) ++ flat_map enc_item body
+  | ILeaf lk seg fa ta => enc_op (lk_op lk) ++ seg_bytes seg ++ enc_fx (lfx lk fa) ++ enc_ta ta
   end.
 Definition enc_items (l : list item) : list N := flat_map enc_item l.
 
 (** number of objects / fuel units of the first pass *)
 Fixpoint isz (it : item) : nat :=
   match it with IName _ => 3%nat
-              | IBlk bk _ _ fa body => (3 + length (bfx bk fa) + fold_right (fun x n => (isz x + n)%nat) O body)%nat end.
+              | IBlk bk _ _ fa body => (3 + length (bfx bk fa) + fold_right (fun x n => (isz x + n)%nat) O body)%nat
+              | ILeaf lk _ fa ta => (2 + length (lfx lk fa) + length ta)%nat end.
 Definition iszs (l : list item) : nat := fold_right (fun x n => (isz x + n)%nat) O l.
 
 Fixpoint icnt (it : item) : nat :=
   match it with IName _ => 2%nat
-              | IBlk bk _ _ fa body => (2 + length (bfx bk fa) + fold_right (fun x n => (icnt x + n)%nat) O body)%nat end.
+              | IBlk bk _ _ fa body => (2 + length (bfx bk fa) + fold_right (fun x n => (icnt x + n)%nat) O body)%nat
+              | ILeaf lk _ fa ta => (2 + length (lfx lk fa) + length ta)%nat end.
 Definition icnts (l : list item) : nat := fold_right (fun x n => (icnt x + n)%nat) O l.
 
 Definition pkglen_okb (k v : N) : bool :=
@@ -65,6 +74,9 @@ Fixpoint item_okb (it : item) : bool :=
   | IBlk bk k seg fa body =>
       lead_okb (seg_lead seg) && (seg <? 0x100000000) && Nat.eqb (length fa) (length (bk_ws bk)) && fx_okb (bfx bk fa) &&
       pkglen_okb k (k + lenN (seg_bytes seg ++ enc_fx (bfx bk fa) ++ flat_map enc_item body)) && forallb item_okb body
+  | ILeaf lk seg fa ta =>
+      lead_okb (seg_lead seg) && (seg <? 0x100000000) && Nat.eqb (length fa) (length (lk_ws lk)) && fx_okb (lfx lk fa) &&
+      Nat.eqb (length ta) (lk_nt lk) && forallb cst_okb ta
   end.
 
 (** ---- the trees ---- *)
@@ -90,6 +102,16 @@ Definition hd_pays (bk : bkind) (off k : N) (fa : list N) : list pay :=
 Definition sb_off (bk : bkind) (off k : N) (fa : list N) : N := off + blo bk + k + 4 + lenN (enc_fx (bfx bk fa)).
 Definition nfx (bk : bkind) (fa : list N) : N := N.of_nat (length (bfx bk fa)).
 
+(** a leaf named object: name path and fixed data arguments below it; the constants follow as siblings (first pass)
+    or as further children (after connectNamedObjArgs) *)
+Definition lf_pay (lk : lkind) (off : N) (nm : Name) : pay := mkPay (lk_op lk) (lk_info lk) h nm off 0 None.
+Definition lhd_pays (lk : lkind) (off : N) (fa : list N) : list pay :=
+  pth_pay (off + llo lk) :: fx_pays h (off + llo lk + 4) (lfx lk fa).
+Definition ta_off (lk : lkind) (off : N) (fa : list N) : N := off + llo lk + 4 + lenN (enc_fx (lfx lk fa)).
+Fixpoint cst_pays (off : N) (ta : list decl) : list pay :=
+  match ta with [] => [] | d :: r => cst_pay off d :: cst_pays (off + lenN (enc_const d)) r end.
+Definition nlf (lk : lkind) (fa : list N) : N := N.of_nat (length (lfx lk fa)).
+
 (** after the first pass: the constant is the next sibling of the Name object; names are not set *)
 Fixpoint lay1_item (b off : N) (it : item) : list rose :=
   match it with
@@ -101,6 +123,8 @@ Fixpoint lay1_item (b off : N) (it : item) : list rose :=
               ((fix go (b off : N) (l : list item) {struct l} : list rose :=
                   match l with [] => [] | x :: t => lay1_item b off x ++ go (b + N.of_nat (isz x)) (off + lenN (enc_item x)) t end)
                  (b + 3 + nfx bk fa) (sb_off bk off k fa) body)])]
+  | ILeaf lk seg fa ta =>
+      RN b (lf_pay lk off name_zero) (leaf_row (b + 1) (lhd_pays lk off fa)) :: leaf_row (b + 2 + nlf lk fa) (cst_pays (ta_off lk off fa) ta)
   end.
 Fixpoint lay1 (b off : N) (l : list item) : list rose :=
   match l with [] => [] | x :: t => lay1_item b off x ++ lay1 (b + N.of_nat (isz x)) (off + lenN (enc_item x)) t end.
@@ -122,6 +146,8 @@ Fixpoint lay2_item (b off : N) (it : item) : list rose :=
               ((fix go (b off : N) (l : list item) {struct l} : list rose :=
                   match l with [] => [] | x :: t => lay2_item b off x ++ go (b + N.of_nat (isz x)) (off + lenN (enc_item x)) t end)
                  (b + 3 + nfx bk fa) (sb_off bk off k fa) body)])]
+  | ILeaf lk seg fa ta =>
+      [RN b (lf_pay lk off (seg_nm seg)) (leaf_row (b + 1) (lhd_pays lk off fa ++ cst_pays (ta_off lk off fa) ta))]
   end.
 Fixpoint lay2 (b off : N) (l : list item) : list rose :=
   match l with [] => [] | x :: t => lay2_item b off x ++ lay2 (b + N.of_nat (isz x)) (off + lenN (enc_item x)) t end.
@@ -176,23 +202,44 @@ Lemma enc_blk bk k seg fa body : enc_item (IBlk bk k seg fa body) =
   enc_op (bk_op bk) ++ enc_pkglen k (k + lenN (seg_bytes seg ++ enc_fx (bfx bk fa) ++ enc_items body)) ++ seg_bytes seg ++ enc_fx (bfx bk fa) ++ enc_items body.
 Proof. reflexivity. Qed.
 
-Lemma isz_pos it : (3 <= isz it)%nat.
-Proof. destruct it; [cbn; lia|rewrite isz_blk; lia]. Qed.
+Lemma isz_leaf lk seg fa ta : isz (ILeaf lk seg fa ta) = (2 + length (lfx lk fa) + length ta)%nat.
+Proof. reflexivity. Qed.
+Lemma icnt_leaf lk seg fa ta : icnt (ILeaf lk seg fa ta) = (2 + length (lfx lk fa) + length ta)%nat.
+Proof. reflexivity. Qed.
+Lemma enc_leaf lk seg fa ta : enc_item (ILeaf lk seg fa ta) = enc_op (lk_op lk) ++ seg_bytes seg ++ enc_fx (lfx lk fa) ++ enc_ta ta.
+Proof. reflexivity. Qed.
+
+Lemma leaf_row_app b p1 p2 : leaf_row b (p1 ++ p2) = leaf_row b p1 ++ leaf_row (b + N.of_nat (length p1)) p2.
+Proof.
+  revert b. induction p1 as [|p r IH]; intros b; [cbn [app length leaf_row]; rewrite N.add_0_r; reflexivity|].
+  cbn [app leaf_row length]. rewrite IH. f_equal. f_equal. f_equal. lia.
+Qed.
+
+Lemma len_lhd_pays h tbl lk off fa : length (lhd_pays h tbl lk off fa) = S (length (lfx lk fa)).
+Proof. unfold lhd_pays. cbn [length]. rewrite len_fx_pays. reflexivity. Qed.
+
+Lemma len_cst_pays h off ta : length (cst_pays h off ta) = length ta.
+Proof. revert off. induction ta as [|d r IH]; intros off; cbn [cst_pays length]; [reflexivity|rewrite IH; reflexivity]. Qed.
+
+Lemma isz_pos it : (2 <= isz it)%nat.
+Proof. destruct it; [cbn; lia|rewrite isz_blk; lia|rewrite isz_leaf; lia]. Qed.
 
 (** induction on the number of objects *)
 Lemma items_ind (P : list item -> Prop) :
   P [] ->
   (forall d rest, P rest -> P (IName d :: rest)) ->
   (forall bk k seg fa body rest, P body -> P rest -> P (IBlk bk k seg fa body :: rest)) ->
+  (forall lk seg fa ta rest, P rest -> P (ILeaf lk seg fa ta :: rest)) ->
   forall l, P l.
 Proof.
-  intros H0 Hn Hd.
+  intros H0 Hn Hd Hlf.
   assert (HS : forall n l, (iszs l <= n)%nat -> P l).
   { induction n as [|n IH]; intros l Hl.
     - destruct l as [|x t]; [exact H0|]. cbn [iszs fold_right] in Hl. pose proof (isz_pos x). lia.
     - destruct l as [|x t]; [exact H0|]. cbn [iszs fold_right] in Hl. fold (iszs t) in Hl. pose proof (isz_pos x).
-      destruct x as [d|bk k seg fa body].
+      destruct x as [d|bk k seg fa body|lk seg fa ta].
       + apply Hn. apply IH. lia.
-      + rewrite isz_blk in Hl. apply Hd; apply IH; lia. }
+      + rewrite isz_blk in Hl. apply Hd; apply IH; lia.
+      + apply Hlf. apply IH. lia. }
   intros l. apply (HS (iszs l)). lia.
 Qed.
